@@ -12,6 +12,7 @@ pub mod verif {
     pub mod inc_config;
     pub mod inc_fs;
     pub mod inc_incr;
+    pub mod inc_watch;
     pub mod projset;
     pub mod prop;
     pub mod report;
